@@ -488,7 +488,13 @@ func generateStatFor(rule *Rule) (*standaloneStatistic, error) {
 	} else if err == base.GlobalStatisticNonReusableError {
 		logging.Info("[FlowRuleManager] Flow rule couldn't reuse global statistic and will generate independent statistic", "rule", rule)
 		retStat.reuseResourceStat = false
-		realLeapArray := sbase.NewBucketLeapArray(sampleCount, intervalInMs)
+		// The array keeps one window more than the rule reads: the warm-up calculation asks for the pass
+		// count of the PREVIOUS window at the first check of a new one. With an array of a single window
+		// that count was gone as soon as anything was recorded in the new window first - which is what
+		// happens with every request that waits in a queue across the boundary (its pass is recorded
+		// when it wakes up): a queueing warm-up rule with a statistic of its own then saw "no traffic"
+		// in every window and never left its cold rate.
+		realLeapArray := sbase.NewBucketLeapArray(2*sampleCount, 2*intervalInMs)
 		metricStat, e := sbase.NewSlidingWindowMetric(sampleCount, intervalInMs, realLeapArray)
 		if e != nil {
 			return nil, errors.Errorf("fail to generate statistic for warm up rule: %+v, err: %+v", rule, e)
